@@ -395,6 +395,8 @@ def b_list(I, args, kw):
     v = I.force(args[0])
     if isinstance(v, SSeq):
         return SSeq(v.kind, v.z)
+    if isinstance(v, TheoryObj) and v.theory == "symiter":
+        return TheoryObj("symiter", label=v.label, fields=v.fields)   # a copy of a collection of unknown size: same elements
     if isinstance(v, SMapZ) or isinstance(v, SSetZ):
         raise Unsupported("list() of a symbolic set/map")
     return PList(I.iter_concrete(v))
